@@ -220,6 +220,13 @@ func genC13(t *rapid.T, tier string) (*World, any) {
 		w.Put(f.Path, content)
 		p.Files = append(p.Files, f)
 	}
+	if p.All && chance(t, 30, "sameid") {
+		// plugins and rule sets keep their tests side by side: the same six digits in another directory is another test file
+		f, content := drawYamlFile(t, "dupid", ids[0], "yml", 6)
+		f.Path = "crs/tests/regression/tests/REQUEST-949-OTHER/" + ids[0] + ".yml"
+		w.Put(f.Path, content)
+		p.Files = append(p.Files, f)
+	}
 	w.Put("crs/regex-assembly/942100.ra", "foo\n")
 	w.Put("crs/tests/regression/tests/REQUEST-942-APPLICATION-ATTACK-SQLI/notes.txt", "test_id: 99\n")
 	for i := 0; i < 4; i++ {
